@@ -219,7 +219,8 @@ pub fn normalise_ids(text: &str) -> String {
 // parse trees
 
 fn term_of(g: &DotGraph, id: &str, depth: usize) -> Result<Ast, String> {
-    if depth > 64 {
+    // a path longer than the number of declared nodes must repeat a node
+    if depth > g.nodes.len() + 1 {
         return Err("cycle in the exported parse tree".into());
     }
     let label = &g.nodes.iter().find(|(i, _)| i == id).ok_or_else(|| format!("undeclared node {id}"))?.1;
@@ -509,6 +510,30 @@ fn run(ctx: &mut Ctx) {
         for a in todo {
             check_tree_export(ctx, &refl::pp(&a, refl::MINIMAL));
             ctx.count("trees", 1);
+        }
+    }
+    // larger trees: long binder lists, long operand lists, deep nesting
+    {
+        let name = |i: usize| format!("n{i}");
+        let mut big: Vec<Ast> = vec![];
+        for n in [9usize, 10, 17, 33, 70] {
+            let vs: Vec<String> = (0..n).map(name).collect();
+            big.push(Ast::Q(n % 2 == 0, vs.clone(), Box::new(Ast::bin(refl::Bin::And, Ast::var(&vs[0]), Ast::var("b")))));
+            let ops: Vec<Ast> = (0..n.min(20)).map(|i| Ast::var(&name(i % 7))).collect();
+            big.push(Ast::CC(refl::Cmp::AtLeast, ops.clone(), "3".into()));
+            big.push(Ast::CV(refl::Cmp::LessThan, ops[..n.min(20) / 2].to_vec(), ops[n.min(20) / 2..].to_vec()));
+            let mut chain = Ast::var("z");
+            for i in 0..n {
+                chain = if i % 3 == 0 { Ast::not(chain) } else { Ast::bin(ALL_BINS[i % 8], Ast::var(&name(i % 5)), chain) };
+            }
+            big.push(chain);
+        }
+        for a in big {
+            idx += 1;
+            if ctx.mine(idx) {
+                check_tree_export(ctx, &refl::pp(&a, refl::MINIMAL));
+                ctx.count("trees_large", 1);
+            }
         }
     }
     let set = cli_formula_set(if th { 4 } else { 3 });
